@@ -172,7 +172,9 @@ impl TestExamplesOutput {
             body_filter.end(Some(&mut unit_trace));
         }
 
-        action.should_log_request(true, final_status_code, Some(&mut unit_trace));
+        // A proxy asks with the status the client receives: the one of the backend when no rule changed it
+        let response_status_code = if final_status_code != 0 { final_status_code } else { backend_status_code };
+        action.should_log_request(true, response_status_code, Some(&mut unit_trace));
 
         unit_trace.squash_with_target_unit_traces();
 
